@@ -48,6 +48,8 @@ func main() {
 		return
 	}
 	switch os.Args[1] {
+	case "nodediff":
+		runNodeDiff(os.Args[2], seed, tier)
 	case "algdiff":
 		runAlgDiff(os.Args[2], seed, tier)
 	case "boarddiff":
